@@ -15,13 +15,14 @@ type State struct {
 	neq    []*Term            // each: term != 0
 	heap   map[int]Val
 	Events []Event
-	Trace  []string // branch decisions (witness)
-	nilF   map[Val]bool   // identity-keyed facts about unknown pointers/interfaces/funcs/slices: true = nil
+	Trace  []string        // branch decisions (witness)
+	nilF   map[Val]bool    // identity-keyed facts about unknown pointers/interfaces/funcs/slices: true = nil
 	boolF  map[*BoolV]bool // identity-keyed facts about opaque unknown booleans
 }
 
 type Event struct {
 	Kind string // "call:<name>", "panic", "wrap", "oob", ...
+	Recv Val    // dynamic calls on a receiver that is not analysed: the receiver value
 	Args []Val
 	Pos  string
 	Msg  string
@@ -495,7 +496,7 @@ func (st *State) Decide(op string, x, y *IntV) (val, known bool) {
 	xl, xh := st.Range(x)
 	yl, yh := st.Range(y)
 	tx, ty := st.TermOf(x), st.TermOf(y)
-	d := termAdd(tx, ty, -1) // x - y
+	d := termAdd(tx, ty, -1)    // x - y
 	lt := func() (bool, bool) { // x < y
 		if xh < yl {
 			return true, true
